@@ -127,7 +127,14 @@ def _z3(name, smt2, timeout_ms, wanted, seed, proc):
             if 'timeout' not in reason and 'canceled' not in reason:
                 break
             if proc is not None and proc.poll() is not None:
-                break
+                try:
+                    out = proc.stdout.read()
+                except Exception:
+                    out = ''
+                if out.strip().startswith('unsat'):
+                    return {'name': name, 'backend': 'cvc5', 'status': 'discharged', 'z3': 'slower'}
+                proc = None            # cvc5 gave up (error/unknown/sat): z3 continues alone
+                slice_ms = timeout_ms
             slice_ms = min(slice_ms * 2, 8000)
         res = {'name': name, 'backend': 'z3'}
         if r == z3.unsat:
